@@ -4,3 +4,7 @@ import JominiModel.Props.C16
 #print axioms Jomini.Props.C16.C16_render_valid_pretty
 #print axioms Jomini.Props.C16.C16_narrowing
 #print axioms Jomini.Props.C16.C16_narrowing_integers
+#print axioms Jomini.Props.C16.C16_group_lossless
+#print axioms Jomini.Props.C16.C16_group_is_stable_grouping
+#print axioms Jomini.Props.C16.C16_preserve_fields
+#print axioms Jomini.Props.C16.C16_object_modes
